@@ -32,6 +32,12 @@ def pairs(impl, subset):
             out += [('DataRead(%#06x, MMIO)' % a, '@tf_dread', '@ti_dread', [impl, a, False], []), ('DataWrite(%#06x, MMIO)' % a, '@tf_dwrite', '@ti_dwrite', [impl, a, v, False], [])]
         for a in (0x0C0, 0x8C4, 0x10CC, 0x020, 0x200):
             out += [('MMIORead(%#06x)' % a, '@tf_mmioread', '@ti_host_mmio_read', [impl, a], []), ('MMIOWrite(%#06x)' % a, '@tf_mmiowrite', '@ti_host_mmio_write', [impl, a, v], [])]
+    elif subset == 'callbacks':
+        F = lambda k: Ptr('F', k)
+        for i in range(3):
+            out.append(('SetRecvDataHandler(%d)' % i, '@tf_setrecvhandler', '@ts_setrecvhandler', [impl, i, F(11)], []))
+        out += [('SetSemaphoreHandler', '@tf_setsemhandler', '@ts_setsemhandler', [impl, F(12)], []), ('SetAudioCallback', '@tf_setaudiocb', '@ts_setaudiocb', [impl, F(13)], []),
+                ('SetAHBMCallback', '@tf_setahbmcb', '@ts_setahbmcb', [impl] + [F(20 + k) for k in range(6)], [])]
     elif subset == 'dma':
         out += [('DMAChan0GetSrcHigh', '@tf_dmachan0srchigh', '@ts_dmachan0srchigh', [impl], []), ('DMAChan0GetDstHigh', '@tf_dmachan0dsthigh', '@ts_dmachan0dsthigh', [impl], [])]
         for i in range(3):
@@ -43,7 +49,14 @@ def pairs(impl, subset):
 def obligations(ck, subset):
     from checks import c19
     G = graph.get()
-    ex, st, ctx, A, names, hostcb = c19.setup(G)
+    if subset == 'callbacks':
+        # the setters destroy the previously installed std::function: start from the constructed graph (empty handlers), not
+        # from C19's state whose host handlers are opaque markers
+        from checks import c12
+        ex, st, ctx, A, names, nstor = c12.overlay(G)
+        hostcb = []
+    else:
+        ex, st, ctx, A, names, hostcb = c19.setup(G)
     if subset == 'mem':
         # memory API: the MIU as Reset leaves it (MMIO window at 0x8000, default paging); everything else as in the overlay
         st = st.fork()
